@@ -300,6 +300,10 @@ func runC18(args []string) error {
 		}
 	}
 
+	// ---- the codec inside a real API server with requests in flight ----
+	if err := runC18Server(sum); err != nil {
+		return err
+	}
 	// ---- compressors under concurrent use of their pooled state ----
 	hcz := sum.hist("compressor_payloads")
 	for _, name := range []string{"gzip", "snappy", "zstd"} {
